@@ -37,6 +37,15 @@ def list_one_intact(prog, rep, an):
         if isinstance(n, (ast.Assign, ast.AugAssign)) and any(norm(t) in (p1, l1name) for t in (n.targets if isinstance(n, ast.Assign) else [n.target])):
             whole = isinstance(n, ast.Assign) and isinstance(n.value, ast.Call) and norm(n.value.func) in ("deepcopy", "copy.deepcopy", "list", "copy.copy", "sorted") and len(n.value.args) >= 1 and norm(n.value.args[0]) in (p1, l1name)
             rep.check(whole, "L1-INTACT", fi.short, f"re-binding {norm(n)[:50]}", "a copy of the whole list", f"list one is re-bound to `{norm(n.value)[:80]}` before the sweep: events of list one that are filtered out there (e.g. zero-length ones) never reach the result, so list one does not come back complete", fi.loc(n))
+    # ... and so is list two: every event of it must reach the sweep (its uncovered parts belong to the result)
+    l2name = copies.get(p2, (p2,))[0]
+    for n in walk_own(fi.node):
+        if isinstance(n, (ast.Assign, ast.AugAssign)) and any(norm(t) in (p2, l2name) for t in (n.targets if isinstance(n, ast.Assign) else [n.target])):
+            whole = isinstance(n, ast.Assign) and isinstance(n.value, ast.Call) and norm(n.value.func) in ("deepcopy", "copy.deepcopy", "list", "copy.copy", "sorted") and len(n.value.args) >= 1 and norm(n.value.args[0]) in (p2, l2name)
+            rep.check(whole, "CUT", fi.short, f"re-binding {norm(n)[:50]}", "a copy of the whole list", f"list two is re-bound to `{norm(n.value)[:80]}` before the sweep: the events filtered out there (e.g. by id, which is unique within one bucket only) never reach the sweep, so their parts not covered by list one are missing from the result", fi.loc(n))
+    for c in walk_own(fi.node):
+        if isinstance(c, ast.Call) and isinstance(c.func, ast.Attribute) and norm(c.func.value) in (p2, l2name) and c.func.attr in ("remove", "pop", "clear", "sort", "reverse") and not any(c is y for lp_ in fi.node.body if isinstance(lp_, ast.While) for y in ast.walk(lp_)):
+            rep.violation("CUT", fi.short, f"{norm(c)[:40]}", "list two is edited before the sweep: events removed there never reach the result", fi.loc(c))
     loops = [n for n in fi.node.body if isinstance(n, ast.While)]
     if len(loops) != 1:
         rep.undecided("L1-INTACT", fi.short, "loop", f"{len(loops)} while loops", fi.loc())
@@ -270,9 +279,16 @@ def check(prog, rep):
     split_rule(prog, rep)
     if ctx:
         cut_points(prog, rep, ctx)
+    # the sweep computes ends as timestamp + duration and compares/cuts there: that is arithmetic on instants only because
+    # every Event's timestamp is stored converted to UTC (in a zone with DST the same sum is wall-clock arithmetic)
+    from .c13 import normalisation
+
+    normalisation(prog, rep)
 
 
 VARIANTS = [
+    ("B timestamp setter keeps zero-offset zones (Europe/London in winter) unconverted", "aw_core/models.py", "        self[\"timestamp\"] = _timestamp_parse(timestamp).astimezone(timezone.utc)", "        ts = _timestamp_parse(timestamp)\n        if ts.utcoffset() != timedelta(0):\n            ts = ts.astimezone(timezone.utc)\n        self[\"timestamp\"] = ts", "NORMALISE"),
+    ("B list two loses the events whose id occurs in list one", F, "    events2 = deepcopy(events2)\n", "    events2 = deepcopy(events2)\n    ids1 = {e.id for e in events1 if e.id is not None}\n    events2 = [e for e in events2 if e.id not in ids1]\n", "CUT"),
     ("B events1 not copied", F, "    events1 = deepcopy(events1)\n", "", "ok"),  # list one is never written: still pure
     ("B events2 not copied", F, "    events2 = deepcopy(events2)\n", "", "PURE"),
     ("B split returns shared piece", F, "        e1 = deepcopy(e)\n        e2 = deepcopy(e)\n", "        e1 = e\n        e2 = deepcopy(e)\n", ["PURE", "SPLIT"]),
